@@ -113,7 +113,7 @@ func c17Base(race bool) *Snapshot {
 		gr.State = "chan receive"
 		gr.SleepMin, gr.SleepMax = 2, 5
 		gr.Stack.Calls = []Call{
-			mk("example.com/p."+exported, "/remote/gp/src/example.com/p/file.go", 10, Args{Values: []Arg{v(uint64(id)), v(ptr1)}}, GOPATH),
+			mk("example.com/p."+exported, "/remote/gp/src/example.com/p/file.go", 10, Args{Values: []Arg{v(7), v(ptr1 + uint64(id)*16)}}, GOPATH),
 			mk("main.main", "/remote/m/main.go", 20, Args{}, GoMod),
 			mk("net/http.(*Server).Serve", "/remote/goroot/src/net/http/server.go", 30, Args{Values: []Arg{v(ptr2)}}, Stdlib),
 		}
